@@ -2,6 +2,7 @@
 
 from __future__ import annotations
 
+import datetime
 import json
 import logging
 import pathlib
@@ -395,7 +396,10 @@ class UpdateableNode(updateable_base):
             return
 
         for copy in copies:
-            copy_age_days = (time.time() - copy.last_update.timestamp()) / 86400.0
+            # last_update is a naive datetime in UTC; without an explicit
+            # tzinfo, timestamp() would interpret it as local time
+            last_update = copy.last_update.replace(tzinfo=datetime.timezone.utc)
+            copy_age_days = (time.time() - last_update.timestamp()) / 86400.0
             if copy_age_days <= config.config["daemon"]["auto_verify_min_days"]:
                 continue  # Too new to re-verify
 
